@@ -69,13 +69,24 @@ func main() {
 		budget, _ := strconv.ParseFloat(os.Getenv("VERIF_BUDGET_S"), 64)
 		started := time.Now()
 		skipped := 0
+		scriptTimeout, _ := strconv.ParseFloat(os.Getenv("VERIF_SCRIPT_TIMEOUT_S"), 64)
+		if scriptTimeout <= 0 {
+			scriptTimeout = 90
+		}
 		flush := func() {
 			if have {
 				if budget > 0 && time.Since(started).Seconds() > budget {
 					skipped++
 					return
 				}
+				// a script that does not end (the library blocked the loop goroutine in a system call, or spins) ends the run:
+				// what was executed so far is on stdout, the orchestrator names the script
+				dog := time.AfterFunc(time.Duration(scriptTimeout*float64(time.Second)), func() {
+					_, _ = os.Stdout.WriteString(fmt.Sprintf("\n< hang (the script did not end within %.0f s)\n", scriptTimeout))
+					os.Exit(3)
+				})
 				c.run(cur, w)
+				dog.Stop()
 				w.Flush()
 			}
 		}
